@@ -8,6 +8,14 @@ ROOT = os.path.dirname(os.path.dirname(os.path.abspath(__file__)))
 
 # id -> (engine, category, technique, text, note, design_ref)
 CHECKS = {
+    "C10": dict(engine="statex", category="model_checking", design_ref="DESIGN.md section 7 C10",
+        technique="exhaustive enumeration of segment/flush histories on the real tcpassembly.Assembler against a sender-stream reference model, for every ISN (incl. wrap-around) x page-limit configuration",
+        text="Every history of 5 [thorough 6] events over {SYN, SYN+data, every data segment D[a,b) of a 4-byte stream with/without FIN, bare FIN, age flush} followed by FlushAll is executed on the real assembler for 8 initial sequence numbers (all quarter boundaries of the wrap-safe comparison and the 2^32 wrap inside the stream) x 4 [6] page-limit settings; every hand-over is compared with the sender model: exact bytes at pos+skip, skips only over bytes that never arrived and only in a flush step or under a page limit, nothing held back behind no gap, everything accounted for after FlushAll.",
+        note="Trusted: the sender model (tcpmodel, ~150 lines). Oracle applies to stream instances whose SYN was processed before any hand-over. Streams longer than 4 bytes / multi-page segments are covered by C11's multi-page family only."),
+    "C18": dict(engine="statex", category="model_checking", design_ref="DESIGN.md section 7 C18",
+        technique="exhaustive enumeration of operation sequences on the real SerializeBuffer against a deque reference model (all sequences to depth 5/6 unpruned + explicit-state BFS pruned on the structural state key)",
+        text="All sequences of length 5 [thorough 6] over an 18-letter alphabet (Prepend/Append of 7 sizes, Clear, PushLayer, SerializeLayers of three marker layers, late writes into still-valid returned slices) x 6 initial buffers run on the real buffer next to a deque model; explicit-state BFS to depth 7 [9] on a reduced alphabet, pruned on (start,len,cap,prepended,appended,#layers,valid live slices) read through an injected accessor. After every operation: Bytes()/Layers() equal the model, returned slices are exact windows, Clear empties both.",
+        note="Trusted: the deque model (~40 lines); pruning argument: buffer methods never read content bytes. Sizes beyond 17 and depths beyond the bound are not explored."),
     "C16": dict(engine="bubble", category="model_checking", design_ref="DESIGN.md section 7 C16",
         technique="stateless exhaustive exploration of the real PacketSource goroutine/channel/timer code inside testing/synctest bubbles over all data-source scripts x explorer action orders (grant, receive, clock tick, cancel, second call)",
         text="All data-source scripts of <=3 items [thorough 4] over {packet, truncated packet, timeout, transient error} ending in each terminal error, x 16 source/option configurations (copying / buffer-reusing source x Lazy x NoCopy x Pool), x every order of explorer actions at every quiescent point (grant the next read result, consumer receive, advance the fake clock, cancel the context, call PacketsCtx again) are executed on the implementation; plus the pull interface and ConcatFinitePacketDataSources over all scripts/splits, and a 1001-packet stalled-consumer run. Oracle per execution: delivered sequence = script packets in order, once, with their capture info and truncation flag, intact after later reads; channel closed and background goroutine gone after end of input or cancel; no read started after cancel; zero-copy+NoCopy refused; second call same channel, single reader.",
